@@ -19,6 +19,7 @@ pub fn run(tier: Tier, seed: u64) {
     // two consecutive degenerate draws (a retry that is itself degenerate) for the small instantiations, in both tiers
     keys::<1>(seed, 2);
     keys::<2>(seed, 2);
+    pedersen::<G1Projective, 1>(seed, d);
     pedersen::<G1Projective, 3>(seed, d);
     pedersen::<G2Projective, 3>(seed, d);
     range_params(seed, tier);
@@ -88,6 +89,8 @@ fn pedersen<G: SymGroup + GroupEncoding + SerializeElement, const N: usize>(seed
         for a in atoms::atoms_of_layout(&l) {
             eng::prove_under(&format!("{} (path {:?}): {} non-identity", name, p.flips, a.path), "C19 degenerate-generator", &hy, &nz(Scalar::from_term(a.term())));
         }
+        let gens: Vec<(String, Scalar)> = atoms::atoms_of_layout(&l).iter().map(|a| (a.path.clone(), Scalar::from_term(a.term()))).collect();
+        independent_generators(&format!("{} (path {:?})", name, p.flips), "C19 generators-not-independent", &hy, &gens);
         sx::set_label("redecode");
         let n0 = sx::n_decisions();
         let back: Option<PedersenParameters<G, N>> = decode(&l.bytes);
@@ -145,6 +148,8 @@ fn config(seed: u64) {
             eng::prove_under(&format!("C19 merchant::Config::new: {} {} non-degenerate", nm, a.path), "C19 degenerate-config-component", &hy, &nz(Scalar::from_term(a.term())));
         }
     }
+    let gens: Vec<(String, Scalar)> = atoms::atoms_of(m.revocation_commitment_parameters()).iter().map(|a| (a.path.clone(), Scalar::from_term(a.term()))).collect();
+    independent_generators("C19 merchant::Config::new: revocation commitment parameters", "C19 generators-not-independent", &hy, &gens);
     sx::set_label("validate");
     let n0 = sx::n_decisions();
     if m.range_constraint_parameters().validate().is_err() {
